@@ -151,6 +151,9 @@ def seeded_big_sparse(n, seed, kind, n_clusters=4):
     'rev_clusters'  : symmetric weights, `n_clusters` metastable blocks joined by weak links (real spectrum,
                       a few isolated slow eigenvalues)
     'nonrev_drift'  : the same blocks plus a directed ring with extra weight (non-reversible)
+    'rev_bipartite' : as rev_clusters but edges only join states of opposite parity and self-loops are weak, so
+                      the spectrum is nearly symmetric about 0: eigenvalues close to -1 have larger modulus than
+                      the second-largest real part (distinguishes "largest real part" from "largest magnitude")
     """
     import scipy.sparse as sp
     rng = np.random.RandomState(seed)
@@ -160,13 +163,15 @@ def seeded_big_sparse(n, seed, kind, n_clusters=4):
     deg = 8
     for i in range(n):
         members = np.where(block == block[i])[0]
+        if kind == "rev_bipartite":
+            members = members[(members % 2) != (i % 2)]
         js = members[rng.randint(0, len(members), size=deg)]
         for j in js:
             rows.append(i)
             cols.append(int(j))
             vals.append(float(rng.randint(1, 10)))
     W = sp.coo_matrix((vals, (rows, cols)), shape=(n, n)).tocsr()
-    W = W + W.T + sp.identity(n, format="csr") * 2.0
+    W = W + W.T + sp.identity(n, format="csr") * (0.5 if kind == "rev_bipartite" else 2.0)
     # weak symmetric links between consecutive blocks + a ring inside everything for irreducibility
     r2, c2, v2 = [], [], []
     for b in range(n_clusters):
